@@ -46,6 +46,12 @@ func (w *World) closureInfo(key string) *FuncInfo {
 	}
 	parent := w.Funcs[key[:i]]
 	if parent == nil {
+		// closure of an instance of a generic function / method: gtree.f[jsonNode]#1
+		if j := strings.Index(key[:i], "["); j >= 0 && strings.HasSuffix(key[:i], "]") {
+			parent = w.Funcs[key[:j]]
+		}
+	}
+	if parent == nil {
 		return nil
 	}
 	var n int
@@ -223,6 +229,7 @@ func (x *Exec) pull2(call *ast.CallExpr, args []*Val, st *St, fr *Frame, k kval)
 	}
 	if sc := x.W.CS.ByKey["stream."+name]; sc != nil {
 		x.resetRecords(st, sc, true, call.Pos())
+		x.knownSubjects(st, sc, args[0])
 	}
 	k(st, &Val{Tuple: []*Val{
 		{T: x.fresh("next", SRef), Ty: tup.At(0).Type(), Proto: "next." + name, Subj: args[0].Subj},
@@ -243,6 +250,7 @@ func (x *Exec) rangeStream(n *ast.RangeStmt, rv *Val, st *St, fr *Frame, k func(
 	label := fr.label
 	define := n.Tok == token.DEFINE
 	recording := len(sc.Records) > 0
+	x.knownSubjects(st, sc, rv)
 	if recording || sc.Stops != "" {
 		st = st.clone()
 		x.resetRecords(st, sc, true, n.Pos())
@@ -366,6 +374,24 @@ func bindSubjects(sc *Contract, subj []*Val, names map[string]*Val) {
 	}
 }
 
+// knownSubjects completes the subjects of a stream value: a subject the consumer knows nothing about (the value came in
+// through a parameter whose contract does not name its subjects) is an unknown but fixed value of the declared type.
+func (x *Exec) knownSubjects(st *St, sc *Contract, v *Val) []*Val {
+	if len(sc.Subjects) == 0 {
+		return v.Subj
+	}
+	for len(v.Subj) < len(sc.Subjects) {
+		v.Subj = append(v.Subj, nil)
+	}
+	for i, nm := range sc.Subjects {
+		if v.Subj[i] == nil {
+			i, nm := i, nm
+			x.wrapCfail("subjects of stream "+sc.Key, func() { v.Subj[i] = x.freshSubject(st, sc, i, nm) })
+		}
+	}
+	return v.Subj
+}
+
 // recordInit is the value a recorded ghost variable has when a producer starts.
 func recordInit(s Sort) *Term {
 	switch {
@@ -395,6 +421,13 @@ func (x *Exec) recordVars(sc *Contract) []*FieldInfo {
 		g, ok := x.W.GhostVars[sc.Stops]
 		if !ok || g.Sort != SBool {
 			cfail("stops: unknown ghost Bool %s", sc.Stops)
+		}
+		out = append(out, g)
+	}
+	for _, t := range sc.Tracks {
+		g, ok := x.W.GhostVars[t]
+		if !ok {
+			cfail("tracks: unknown ghost variable %s", t)
 		}
 		out = append(out, g)
 	}
